@@ -69,5 +69,9 @@ MCSpec == MCInit /\ [][MCNext]_<<svars, hist, src>>
 \* src is the step whose numeric result ans holds
 SrcOK == Fault = "none" => (src = 0) = (ans = MCNoAns)
 
-Emit == Len(hist) = MaxLen => PrintT(<<"REPLAY", ToJson([save |-> save, steps |-> hist])>>)
+\* one string per line (TLC wraps long tuples): s = flag, q = queries, k = predicted kinds, a = step `ans` comes from
+Emit == Len(hist) = MaxLen =>
+          PrintT("REPLAY " \o ToJson([s |-> save, q |-> [i \in DOMAIN hist |-> hist[i].q],
+                                      k |-> [i \in DOMAIN hist |-> hist[i].kind],
+                                      a |-> [i \in DOMAIN hist |-> hist[i].ans]]))
 =============================================================================
